@@ -142,6 +142,15 @@ pub enum Error {
         #[label(primary, "`{name}` is not an interface")]
         span: SourceSpan,
     },
+    /// The interface has no identifier.
+    #[error("interface `{name}` has no identifier and cannot be imported or exported by a world")]
+    UnnamedInterface {
+        /// The name used to refer to the interface.
+        name: String,
+        /// The span where the error occurred.
+        #[label(primary, "interface has no identifier")]
+        span: SourceSpan,
+    },
     /// Duplicate name in a world include.
     #[error("duplicate `{name}` in world include `with` clause")]
     DuplicateWorldIncludeName {
@@ -1670,10 +1679,12 @@ impl<'a> AstResolver<'a> {
                 let (item, _) = state.root_item(id)?;
                 match item.kind(&state.graph) {
                     ItemKind::Type(Type::Interface(iface_ty_id)) => {
-                        let iface_id = state.graph.types()[iface_ty_id]
-                            .id
-                            .as_ref()
-                            .expect("expected an interface id");
+                        let iface_id = state.graph.types()[iface_ty_id].id.as_ref().ok_or_else(
+                            || Error::UnnamedInterface {
+                                name: id.string.to_owned(),
+                                span: id.span,
+                            },
+                        )?;
                         check_name(iface_id, id.span, ty, world, kind)?;
                         (iface_id.clone(), ItemKind::Instance(iface_ty_id))
                     }
@@ -1690,10 +1701,12 @@ impl<'a> AstResolver<'a> {
             ast::WorldItemPath::Package(p) => {
                 match self.resolve_package_path(state, p, packages)? {
                     ItemKind::Type(Type::Interface(id)) => {
-                        let name = state.graph.types()[id]
-                            .id
-                            .as_ref()
-                            .expect("expected an interface id");
+                        let name = state.graph.types()[id].id.as_ref().ok_or_else(|| {
+                            Error::UnnamedInterface {
+                                name: p.string.to_owned(),
+                                span: p.span,
+                            }
+                        })?;
                         check_name(name, p.span, ty, world, kind)?;
                         (name.clone(), ItemKind::Instance(id))
                     }
